@@ -131,12 +131,15 @@ pub fn linfa_init<F: Float>(init: &Init, x: &Xform, p: usize) -> KMeansInit<F> {
     }
 }
 
-/// Every (sub-check, chunk) is its own process and the engine already fills the cores with them:
-/// keep linfa's rayon pool at 3 workers (enough for the parallel assignment loop to split).
+/// Every (sub-check, chunk) is its own process and the engine already fills the cores with them.
+/// linfa's global rayon pool is kept at ONE worker so that every evaluation is a pure function of
+/// the case: KMeans|| seeds one RNG per rayon job, so with several workers its result (and hence a
+/// replay) would depend on scheduling. `large` installs a 3-worker pool for the deterministic
+/// initialisers so that the parallel assignment loop really splits there.
 pub fn limit_pool() {
     static ONCE: std::sync::Once = std::sync::Once::new();
     ONCE.call_once(|| {
-        let _ = rayon::ThreadPoolBuilder::new().num_threads(3).build_global();
+        let _ = rayon::ThreadPoolBuilder::new().num_threads(1).build_global();
     });
 }
 
